@@ -112,6 +112,14 @@ def purge (_ : Store V) : Store V := {}
 def foreignStore (ser : V → Str) (H : Str → Str) (st : Store V) (o : V) : Store V :=
   { st with ext := AMap.set st.ext (genKey H (ser o)) (ser o) }
 
+/-- another process sharing the backend purges it (`app.purge()` elsewhere): the backend is emptied, this
+    process keeps its `_deserialized_cache` -/
+def foreignPurge (st : Store V) : Store V := { st with ext := [] }
+
+/-- `resolve(data)` by a process that has never seen the key (empty LRU) on the same backend; result only -/
+def freshResolve (deser : Str → Option V) (c : Conf) (st : Store V) (data : Str) : Res V :=
+  (resolve deser c { ext := st.ext, lru := [] } data).2
+
 /-- `serialize_arguments`: is external storage disabled for this argument name -/
 def disableFor (disableCacheArgs : List Str) (key : Str) : Bool :=
   disableCacheArgs.contains "*".toList || disableCacheArgs.contains key
